@@ -1207,8 +1207,20 @@ func init() {
 		},
 
 		// sort
+		// sort.Slice / sort.SliceStable: only the reflection part (length, swapper) is modelled; the sorting algorithms
+		// themselves (pdqsort_func, stable_func) are the standard library's own code, executed from SSA, so that
+		// (in)stability for ties and every size is exactly the real behaviour.
 		"sort.SliceStable": func(e *Exec, a []Value) (Value, bool) {
 			sl := a[0].(Iface).V.(Slice)
+			swap := &intrinsicFn{name: "swapper", f: func(e *Exec, x []Value) Value {
+				i, j := e.concInt(x[0]), e.concInt(x[1])
+				sl.B[i], sl.B[j] = sl.B[j], sl.B[i]
+				return nil
+			}}
+			if f := e.P.ByPath["sort"].Func("stable_func"); f != nil {
+				e.callFn(f, []Value{Struct{a[1], swap}, ci(sl.N)}, nil, nil)
+				return nil, true
+			}
 			less := a[1]
 			e.insertionSort(sl.N,
 				func(i, j int) bool { return e.branch(e.call(less, []Value{ci(i), ci(j)}, nil).(Bool)) },
@@ -1216,16 +1228,21 @@ func init() {
 			return nil, true
 		},
 		"sort.Slice": func(e *Exec, a []Value) (Value, bool) {
-			// not stable in the real library: only sound to model when no two elements compare equal;
-			// we run insertion sort and mark the path unsupported if a tie is possible.
 			sl := a[0].(Iface).V.(Slice)
-			less := a[1]
-			if sl.N > 12 {
-				panic(unsupported("sort.Slice of more than 12 elements"))
+			swap := &intrinsicFn{name: "swapper", f: func(e *Exec, x []Value) Value {
+				i, j := e.concInt(x[0]), e.concInt(x[1])
+				sl.B[i], sl.B[j] = sl.B[j], sl.B[i]
+				return nil
+			}}
+			f := e.P.ByPath["sort"].Func("pdqsort_func")
+			if f == nil {
+				panic(unsupported("sort.pdqsort_func not found"))
 			}
-			e.insertionSort(sl.N,
-				func(i, j int) bool { return e.branch(e.call(less, []Value{ci(i), ci(j)}, nil).(Bool)) },
-				func(i, j int) { sl.B[i], sl.B[j] = sl.B[j], sl.B[i] })
+			limit := 0
+			for n := uint(sl.N); n != 0; n >>= 1 {
+				limit++
+			}
+			e.callFn(f, []Value{Struct{a[1], swap}, ci(0), ci(sl.N), ci(limit)}, nil, nil)
 			return nil, true
 		},
 		"sort.Strings": func(e *Exec, a []Value) (Value, bool) {
